@@ -279,9 +279,15 @@ Fixpoint io_dispatch (fuel : nat) (idx : nat) (s : sst) : option sst :=
   end.
 
 (* tickit_evloop_invoke_sigwatches (repaired form):
+     seq = ++t->sigwalk_seq;
      for(this = t->signals; this; this = t->next_sigwatch) {
-       t->next_sigwatch = this->next;  if(this->signum == signum) call } *)
-Fixpoint sig_walk (fuel : nat) (this : option Z) (sig : Z) (s : sst) : option sst :=
+       t->next_sigwatch = this->next;
+       if(this->signum == signum && this->born < seq) call }
+   A watch registered while the walk is under way (born = seq) is passed over, wherever the
+   running watch stands in the list (fixes/C18-sigwatch-walk-snapshot.patch).  Registration
+   numbers grow with time, so "born before this walk" is "number below [bound]", the counter
+   when the walk began. *)
+Fixpoint sig_walk (fuel : nat) (bound : Z) (this : option Z) (sig : Z) (s : sst) : option sst :=
   match fuel with
   | O => None
   | S f =>
@@ -292,10 +298,10 @@ Fixpoint sig_walk (fuel : nat) (this : option Z) (sig : Z) (s : sst) : option ss
           | None => None    (* the cursor names a freed watch: cannot happen *)
           | Some w =>
               let s1 := up_cursor s (sgw_after id (sgws s)) in
-              let s2 := if g_sig w =? sig
+              let s2 := if (g_sig w =? sig) && (g_id w <? bound)
                         then sdo_actions (semit s1 id KSig EV_FIRE sig) (env (g_cb w))
                         else s1 in
-              sig_walk f (cursor s2) sig s2
+              sig_walk f bound (cursor s2) sig s2
           end
       end
   end.
@@ -310,7 +316,7 @@ Fixpoint dispatch_sigs (fuel : nat) (sigs : list Z) (s : sst) : option sst :=
   | [] => Some s
   | sg :: r =>
       if is_watched s sg
-      then match sig_walk fuel (match sgws s with [] => None | h :: _ => Some (g_id h) end) sg s with
+      then match sig_walk fuel (snext s) (match sgws s with [] => None | h :: _ => Some (g_id h) end) sg s with
            | None => None
            | Some s1 => dispatch_sigs fuel r s1
            end
